@@ -38,12 +38,23 @@ def mag_terms(v):
     return t < 0, z3.If(t < 0, -t, t)
 
 
+def _neq(a, b):
+    """a != b for operands that are python bools or z3 Bools; folds when both are concrete"""
+    ca, cb = isinstance(a, bool), isinstance(b, bool)
+    if ca and cb: return a != b
+    if ca: return z3.Not(b) if a else b
+    if cb: return z3.Not(a) if b else a
+    return a != b
+
+
 def ref_encoding_check(ex, xbits, vec, limit=spec.COEFF_LIMIT):
     """Under the current path condition: is there an input for which the returned vector `vec` is NOT the vector whose
     reference encoding (Algorithm 17, zero padded) equals the input bits, or is out of range / negative zero?
-    Enumerates the feasible tuples of unary lengths (normally exactly one per path). Returns (model or None, n_queries)."""
-    terms = [mag_terms(v) for v in vec]
-    highs = [z3.LShR(m, 7) for _, m in terms]
+    Enumerates the feasible tuples of unary lengths of the symbolic coefficients (normally exactly one per path); concrete
+    coefficients (production-size prefixes) are encoded and compared in python. Returns a model or None."""
+    sym = [(i, v) for i, v in enumerate(vec) if not v.conc]
+    terms = {i: mag_terms(v) for i, v in sym}
+    highs = [z3.LShR(terms[i][1], 7) for i, _ in sym]
     found = None
     ex.push()
     try:
@@ -56,28 +67,39 @@ def ref_encoding_check(ex, xbits, vec, limit=spec.COEFF_LIMIT):
             if ex.solver.check() != z3.sat:
                 break
             m = ex.solver.model()
-            hs = [m.eval(h, model_completion=True).as_long() for h in highs]
-            fix = z3.And(*[h == hv for h, hv in zip(highs, hs)]) if highs else z3.BoolVal(True)
-            ref = []
-            for (sg, mg), hv in zip(terms, hs):
-                ref.append(zb(sg))
-                ref += [z3.Extract(k, k, mg) == 1 for k in range(6, -1, -1)]
-                ref += [z3.BoolVal(False)] * hv + [z3.BoolVal(True)]
-            viol = []
-            if len(ref) > len(xbits):
-                viol.append(z3.BoolVal(True))
+            hs = {i: m.eval(h, model_completion=True).as_long() for (i, _), h in zip(sym, highs)}
+            fix = z3.And(*[h == hs[i] for (i, _), h in zip(sym, highs)]) if sym else z3.BoolVal(True)
+            viol = []          # python True or z3 terms
+            pos = 0
+            for i, v in enumerate(vec):
+                if v.conc:
+                    a = abs(v.t)
+                    if a >= limit: viol.append(True)
+                    ref = [v.t < 0] + [bool((a >> k) & 1) for k in range(6, -1, -1)] + [False] * (a >> 7) + [True]
+                else:
+                    sg, mg = terms[i]; hv = hs[i]
+                    ref = [sg] + [z3.Extract(k, k, mg) == 1 for k in range(6, -1, -1)] + [False] * hv + [True]
+                    viol.append(z3.And(sg, mg == 0))                  # negative zero
+                    if hv * 128 >= limit: viol.append(True)             # out of range
+                if pos + len(ref) > len(xbits):
+                    viol.append(True); break
+                for r in ref:
+                    d = _neq(xbits[pos], r)
+                    if d is not False: viol.append(d)
+                    pos += 1
             else:
-                for i, r in enumerate(ref):
-                    viol.append(zb(xbits[i]) != r)
-                for i in range(len(ref), len(xbits)):
-                    viol.append(zb(xbits[i]))
-            for (sg, mg), hv in zip(terms, hs):
-                viol.append(z3.And(zb(sg), mg == 0))                   # negative zero
-                if hv * 128 >= limit:
-                    viol.append(z3.BoolVal(True))                       # out of range
-            ok, mm = ex.check(fix, z3.Or(*viol))
-            if ok:
-                found = mm
+                for j in range(pos, len(xbits)):
+                    if xbits[j] is not False: viol.append(xbits[j])
+            if any(x is True for x in viol):
+                found = ex.check(fix)[1]
+                break
+            zs = [x for x in viol if not isinstance(x, bool)]
+            if zs:
+                ok, mm = ex.check(fix, z3.Or(*zs))
+                if ok:
+                    found = mm
+                    break
+            if not sym:
                 break
             ex.assume(z3.Not(fix))
     finally:
